@@ -50,9 +50,12 @@ func vObserve(st *VStep, srv *IRCServer) string {
 		sort.Strings(rs)
 		fmt.Fprintf(&b, "%d.%d %q -> %s\n", m.Id.Id, m.Id.Reply, data, strings.Join(rs, ","))
 	}
-	b.WriteString(VerifDump(srv, VerifDumpOpts{}))
+	// the start time of the server is the one tolerated difference (numeric 003 above, the field itself here)
+	b.WriteString(vCreationRe.ReplaceAllString(VerifDump(srv, VerifDumpOpts{}), " creation=X"))
 	return b.String()
 }
+
+var vCreationRe = regexp.MustCompile(` creation=-?\d+`)
 
 type vC01Run struct {
 	obs     string
@@ -67,6 +70,11 @@ func vRunArmed(hist []VEntry, e VEntry, script map[int]uint64, clockShift int64)
 	rec := &rt.Recorder{Script: script}
 	rt.SetClockOffset(clockShift)
 	in := VerifNewInst()
+	if clockShift != 0 {
+		// the other replica is another process on another machine: it was started at another time as well (the
+		// start time is a constructor argument, not read from the clock by the state machine)
+		in = &VInst{Srv: NewIRCServer(VerifNetwork, time.Unix(0, VerifT0).Add(time.Duration(clockShift)*time.Second+17*time.Hour))}
+	}
 	rec.Arm()
 	for _, h := range hist {
 		in.Apply(h)
